@@ -74,6 +74,7 @@ EXTREME_CLASSES = ["far-offset", "tiny", "thin-flat"]
 M = Monitor(
     pid="C18",
     setup=_setup,
+    decoy=True,
     title="Gamut-size and divergence metrics equal their geometric/information definitions",
     rule=("cases: point clouds of ambient dimension 1..5 (enumerated by the case index) and affine rank 1..d: affine images "
           "(condition <= 30, flat ones aspect <= 30) of unit boxes, simplices, cross-polytopes with 0-12 convex mixtures "
